@@ -114,21 +114,33 @@ func containsReturn(n ast.Node) bool {
 
 // hasUnsupported: constructs whose meaning depends on the enclosing function.
 func hasUnsupported(body *ast.BlockStmt) string {
+	why := hasUnsupported1(body, false)
+	if why == "" {
+		why = hasUnsupported1(body, true)
+	}
+	return why
+}
+
+func hasUnsupported1(body *ast.BlockStmt, onlyRecover bool) string {
 	why := ""
 	ast.Inspect(body, func(x ast.Node) bool {
 		switch y := x.(type) {
 		case *ast.FuncLit:
 			return false
 		case *ast.DeferStmt:
-			why = "defer"
+			if !onlyRecover {
+				why = "defer"
+			}
 		case *ast.LabeledStmt:
-			why = "label"
+			if !onlyRecover {
+				why = "label"
+			}
 		case *ast.BranchStmt:
-			if y.Tok == token.GOTO {
+			if y.Tok == token.GOTO && !onlyRecover {
 				why = "goto"
 			}
 		case *ast.CallExpr:
-			if id, ok := y.Fun.(*ast.Ident); ok && id.Name == "recover" {
+			if id, ok := y.Fun.(*ast.Ident); ok && id.Name == "recover" && onlyRecover {
 				why = "recover"
 			}
 		}
